@@ -1,0 +1,50 @@
+//go:build verif
+
+package risc
+
+// verifState carries the simulation harness callbacks of one Context.
+type verifState struct {
+	tick  func(cycle int)
+	probe func(kind uint8)
+}
+
+// Probe kinds reported through VerifProbe.
+const (
+	VerifProbeFlush uint8 = iota
+	VerifProbeForward
+	VerifProbeRename
+	VerifProbeCommit
+	VerifProbeRollback
+	VerifProbeBTBHit
+	VerifProbeBTBMiss
+	VerifProbeSeqDrop
+	VerifProbeL1Evict
+	VerifProbeL3Evict
+	VerifProbeSnoopEvict
+	VerifProbeSnoopWriteBack
+	VerifProbeLockWait
+	VerifProbeCancelLocked
+	VerifProbePendingFetchWait
+	VerifProbeMSIRefresh
+	VerifProbeKinds
+)
+
+// VerifSetHooks installs the harness callbacks (nil disables one).
+func (ctx *Context) VerifSetHooks(tick func(cycle int), probe func(kind uint8)) {
+	ctx.verif.tick = tick
+	ctx.verif.probe = probe
+}
+
+// VerifTick is called once per iteration of every loop of every Run.
+func (ctx *Context) VerifTick(cycle int) {
+	if ctx.verif.tick != nil {
+		ctx.verif.tick(cycle)
+	}
+}
+
+// VerifProbe reports a rare event to the harness.
+func (ctx *Context) VerifProbe(kind uint8) {
+	if ctx.verif.probe != nil {
+		ctx.verif.probe(kind)
+	}
+}
